@@ -72,7 +72,7 @@ def registered(ctx):
     ri = F.fn('core::TracingSecretKey::refresh_id')
     ks = ri.calls(r'TracingSecretKey::is_known$')
     ctx.check(len(ks) == 1, ri.key, 'calls is_known', 'refresh_id no longer checks that the identifier is known', '', ri.where())
-    idp = [v['pl']['l'] for v in ri.vars if v['name'] == 'id' and v['arg'] is not None]
+    idp = [pi for pi in range(1, ri.argc + 1) if ri.local_ty(pi) == 'core::UserId']
     if len(ks) == 1:
         k = ks[0]
         okarg = bool(idp) and any(r[0] == 'param' and r[1] == idp[0] for r in root_descr(ri, k.args[1]))
